@@ -10,6 +10,7 @@ import (
 	"encoding/binary"
 	"fmt"
 	"io"
+	"strings"
 	"time"
 
 	p9p "github.com/frobnitzem/go-p9p"
@@ -83,9 +84,9 @@ func (r *rig) close() {
 var callKinds = []string{"stat", "open", "clunk", "read", "write", "walk", "attach", "create", "remove", "wstat", "auth"}
 
 var replyKind = map[string]uint8{"stat": refwire.Rstat, "open": refwire.Ropen, "clunk": refwire.Rclunk, "read": refwire.Rread, "write": refwire.Rwrite,
-	"walk": refwire.Rwalk, "attach": refwire.Rattach, "create": refwire.Rcreate, "remove": refwire.Rremove, "wstat": refwire.Rwstat, "auth": refwire.Rauth}
+	"walk": refwire.Rwalk, "bigwalk": refwire.Rwalk, "attach": refwire.Rattach, "create": refwire.Rcreate, "remove": refwire.Rremove, "wstat": refwire.Rwstat, "auth": refwire.Rauth}
 var requestKind = map[string]uint8{"stat": refwire.Tstat, "open": refwire.Topen, "clunk": refwire.Tclunk, "read": refwire.Tread, "write": refwire.Twrite,
-	"walk": refwire.Twalk, "attach": refwire.Tattach, "create": refwire.Tcreate, "remove": refwire.Tremove, "wstat": refwire.Twstat, "auth": refwire.Tauth}
+	"walk": refwire.Twalk, "bigwalk": refwire.Twalk, "attach": refwire.Tattach, "create": refwire.Tcreate, "remove": refwire.Tremove, "wstat": refwire.Twstat, "auth": refwire.Tauth}
 
 type callResult struct {
 	err    error
@@ -103,6 +104,8 @@ type pending struct {
 	answered  bool
 	abandoned bool
 	finished  bool
+	local     bool // expected to fail before anything is written
+	arrived   bool // local: the request showed up on the wire all the same
 	res       callResult
 }
 
@@ -150,6 +153,13 @@ func (r *rig) startCtx(kind string, marker uint32, ctx context.Context, cancel c
 			} else if err == nil {
 				cr.err = fmt.Errorf("walk returned %d qids", len(q))
 			}
+		case "bigwalk":
+			names := make([]string, 16)
+			for i := range names {
+				names[i] = strings.Repeat("w", 5000)
+			}
+			_, err := s.Walk(ctx, fid, fid+1, names...)
+			cr = callResult{err: err}
 		case "attach":
 			q, err := s.Attach(ctx, fid, p9p.NOFID, "u", "")
 			cr = callResult{err: err, marker: q.Version, has: true}
